@@ -65,6 +65,8 @@ val forallb : ('a1 -> bool) -> 'a1 list -> bool
 
 val filter : ('a1 -> bool) -> 'a1 list -> 'a1 list
 
+val combine : 'a1 list -> 'a2 list -> ('a1 * 'a2) list
+
 val firstn : nat -> 'a1 list -> 'a1 list
 
 val skipn : nat -> 'a1 list -> 'a1 list
@@ -423,6 +425,9 @@ val warnings :
   ginfo -> automaton -> (nat * nat list) list list ->
   ((nat * nat) * (nat * nat)) list
 
+val conflict_cells :
+  ginfo -> automaton -> (nat * nat list) list list -> (nat * nat) list
+
 val cellz : z list list -> nat -> nat -> z
 
 val count_z : z -> z list -> nat
@@ -469,8 +474,9 @@ type gen_error =
 
 type tables = { t_aut : automaton; t_la : (nat * nat list) list list;
                 t_dense : z list list;
-                t_warn : ((nat * nat) * (nat * nat)) list; t_packed : 
-                packed; t_need_packed : bool }
+                t_warn : ((nat * nat) * (nat * nat)) list;
+                t_conf : (nat * nat) list; t_packed : packed;
+                t_need_packed : bool }
 
 val generate_tables : ginfo -> (gen_error, tables) sum
 
@@ -524,15 +530,22 @@ val is_packed : variant -> bool
 
 val table_of : variant -> tables -> table
 
-val init_of : variant -> pst -> pst
-
 val cfinal : table -> grammar -> semact -> nat -> pst -> tok list -> pst
+
+val init_b : bool -> pst -> pst
+
+val parse_from_tab :
+  table -> bool -> grammar -> semact -> nat -> pst -> tok list -> result
+
+val state_after_tab :
+  table -> bool -> grammar -> semact -> nat -> pst -> tok list -> pst
+
+val history_tab :
+  table -> bool -> grammar -> semact -> nat -> pst -> tok list list -> result
+  list
 
 val parse_from :
   variant -> tables -> grammar -> semact -> nat -> pst -> tok list -> result
-
-val state_after :
-  variant -> tables -> grammar -> semact -> nat -> pst -> tok list -> pst
 
 val parse :
   variant -> tables -> grammar -> semact -> nat -> tok list -> result
@@ -546,3 +559,9 @@ val modulus : z
 val dot : z list -> z list -> z
 
 val linear_act : (z * z list) list -> semact
+
+val sym_eqb_list : nat list -> nat list -> bool
+
+val replay :
+  grammar -> semact -> (nat * z) list -> tok list -> nat -> (nat * nat) list
+  -> z option
